@@ -108,9 +108,10 @@ def audit_axioms(module: str, theorems: list[str]) -> dict[str, list[str]]:
     if p.returncode != 0:
         raise ToolFailure("axiom audit failed:\n" + out[-3000:])
     res: dict[str, list[str]] = {}
-    for m in re.finditer(r"'([^']+)' depends on axioms: \[([^\]]*)\]", out):
+    # (theorem names may end in primes: `run_combine'`)
+    for m in re.finditer(r"^'(\S+)' depends on axioms: \[([^\]]*)\]", out, re.M):
         res[m.group(1)] = [a.strip() for a in m.group(2).replace("\n", " ").split(",") if a.strip()]
-    for m in re.finditer(r"'([^']+)' does not depend on any axioms", out):
+    for m in re.finditer(r"^'(\S+)' does not depend on any axioms", out, re.M):
         res[m.group(1)] = []
     return res
 
